@@ -162,7 +162,8 @@ class Commands:
             return cmd_type.parse(buf, params)
         except NotParseable as exc:
             return InvalidCommand(params, exc, command, cmd_type), buf[0:0]
-        except RecursionError:
-            # arguments nested too deeply, e.g. thousands of parentheses
+        except (RecursionError, ValueError):
+            # arguments nested too deeply, e.g. thousands of parentheses, or
+            # a number with more digits than int() converts
             exc = NotParseable(buf)
             return InvalidCommand(params, exc, command, cmd_type), buf[0:0]
